@@ -591,7 +591,7 @@ func (jf *JSONFamily) installInner(f *ssa.Function, jt *jsonType) {
 //	loop #0 invariant visited(k) ==> k is a key of the map
 //	loop #0 invariant no duplicates so far; BAD stays BAD
 func (jf *JSONFamily) installAPLoop(c *Contract, f *ssa.Function, jt *jsonType) {
-	errA, commaA := localAlloc(f, "err"), localAlloc(f, "comma")
+	errA, commaA := codecCell(f, isErrorT), codecCell(f, isStringT)
 	var rng *ssa.Range
 	for _, b := range f.Blocks {
 		for _, in := range b.Instrs {
@@ -716,6 +716,89 @@ func e2s(t types.Type) string { return t.String() }
 // body as it stands: decided by evaluation for literal names, undecided
 // otherwise)
 
+// Variables of the emitted codecs are identified by their role (type and
+// capture structure), not by their source names: a renamed local changes
+// nothing here.
+
+func isErrorT(t types.Type) bool  { return types.Identical(t, types.Universe.Lookup("error").Type()) }
+func isStringT(t types.Type) bool { b, ok := t.Underlying().(*types.Basic); return ok && b.Kind() == types.String }
+func isWriterT(t types.Type) bool { return isNamed(t, "io", "Writer") }
+func isEncoderPtrT(t types.Type) bool {
+	p, ok := t.(*types.Pointer)
+	return ok && isNamed(p.Elem(), "encoding/json", "Encoder")
+}
+
+// closureCell: the variable cell of type T (pred) that closure g of parent can
+// reach: one of its own bindings, or a binding of a closure parked in one.
+func closureCell(parent, g *ssa.Function, pred func(types.Type) bool) *ssa.Alloc {
+	var mc *ssa.MakeClosure
+	for _, b := range parent.Blocks {
+		for _, in := range b.Instrs {
+			if x, ok := in.(*ssa.MakeClosure); ok && x.Fn == g {
+				mc = x
+			}
+		}
+	}
+	if mc == nil {
+		return nil
+	}
+	var found *ssa.Alloc
+	var visit func(bs []ssa.Value, d int)
+	visit = func(bs []ssa.Value, d int) {
+		for _, b := range bs {
+			al, ok := b.(*ssa.Alloc)
+			if !ok || found != nil {
+				continue
+			}
+			if pred(al.Type().Underlying().(*types.Pointer).Elem()) {
+				found = al
+				return
+			}
+		}
+		if d > 2 {
+			return
+		}
+		for _, b := range bs {
+			if al, ok := b.(*ssa.Alloc); ok {
+				if st, ok := stableCell(al); ok {
+					if mc2, ok := st.Val.(*ssa.MakeClosure); ok {
+						visit(mc2.Bindings, d+1)
+					}
+				}
+			}
+		}
+	}
+	visit(mc.Bindings, 0)
+	return found
+}
+
+// codecCell: the first variable cell of the given role in a codec function that
+// some closure captures (err, comma), looked up through its closures.
+func codecCell(f *ssa.Function, pred func(types.Type) bool) *ssa.Alloc {
+	for _, g := range f.AnonFuncs {
+		if al := closureCell(f, g, pred); al != nil {
+			return al
+		}
+	}
+	return nil
+}
+
+// phiOfType: the loop-carried variable of a given type at a loop header.
+func phiOfType(env *cenv, pred func(types.Type) bool) (tv, bool) {
+	var names []string
+	for k := range env.vars {
+		names = append(names, k)
+	}
+	sort.Strings(names)
+	for _, k := range names {
+		v := env.vars[k]
+		if strings.HasPrefix(k, "#phi:") && v.t != nil && pred(v.t) {
+			return v, true
+		}
+	}
+	return tv{}, false
+}
+
 func localAlloc(parent *ssa.Function, name string) *ssa.Alloc {
 	for _, b := range parent.Blocks {
 		for _, in := range b.Instrs {
@@ -750,7 +833,7 @@ func (e *FuncEnc) safeKeyTerm(name string) string {
 }
 
 func (jf *JSONFamily) installWriteProperty(g, parent *ssa.Function) {
-	errA, commaA, outA, encA := localAlloc(parent, "err"), localAlloc(parent, "comma"), localAlloc(parent, "out"), localAlloc(parent, "encoder")
+	errA, commaA, outA, encA := closureCell(parent, g, isErrorT), closureCell(parent, g, isStringT), closureCell(parent, g, isWriterT), closureCell(parent, g, isEncoderPtrT)
 	if errA == nil || commaA == nil || outA == nil || encA == nil {
 		jf.note(parent.String() + ": writeProperty closure without the expected captured variables")
 		return
@@ -891,7 +974,7 @@ func (jf *JSONFamily) apOf(e *FuncEnc, jt *jsonType, c string, st *state) *apCtx
 // not under contract: see DESIGN §0.7, limits.
 
 func (jf *JSONFamily) installWriteItem(g, parent *ssa.Function) {
-	errA, outA, encA := localAlloc(parent, "err"), localAlloc(parent, "out"), localAlloc(parent, "encoder")
+	errA, outA, encA := closureCell(parent, g, isErrorT), closureCell(parent, g, isWriterT), closureCell(parent, g, isEncoderPtrT)
 	if errA == nil || outA == nil || encA == nil {
 		jf.note(parent.String() + ": writeItem closure without the expected captured variables")
 		return
@@ -948,7 +1031,7 @@ func (jf *JSONFamily) installWriteItem(g, parent *ssa.Function) {
 func (jf *JSONFamily) installArrayInner(f *ssa.Function, jt *jsonType) {
 	c := newFamilyContract(f)
 	c.Options["family"] = "json-marshal-array-inner"
-	errA, commaA := localAlloc(f, "err"), localAlloc(f, "comma")
+	errA, commaA := codecCell(f, isErrorT), codecCell(f, isStringT)
 	c.PreHook = func(e *FuncEnc, args []string) []NamedFormula {
 		e.jsonEvents()
 		e.noteWriter(args[1])
@@ -1007,7 +1090,7 @@ func (jf *JSONFamily) installArrayInner(f *ssa.Function, jt *jsonType) {
 			var c1 string
 			if commaA != nil {
 				c1 = e.cellLoad(st, commaA)
-			} else if cv, ok := env.vars["comma"]; ok {
+			} else if cv, ok := phiOfType(env, isStringT); ok {
 				c1 = cv.s
 			} else {
 				return []NamedFormula{{Name: "invariant#shape", Props: []string{"C06"}, Formula: "false"}}
